@@ -780,7 +780,6 @@ def denlike(eng, ref, d):
 
 # ------------------------------------------------------------------ exhaustive enumeration (C09, vf/qvc/enumth.py)
 def _asgset(eng, V):
-    from . import enumth as EN
     if isinstance(V, SV) and V.t == "asgset":
         return V.e
     raise Unsupported("set of enumerated tuples expected")
@@ -792,10 +791,40 @@ def _tq(eng, hint="tq"):
     return z3.Const("%s!%d" % (hint, eng.nfresh), EN.Asg)
 
 
-def _value_at(eng, t, D):
+def _fn(eng, f, kind):
+    from . import enumth as EN
+    a = EN.as_abstract(eng, f, kind)
+    if a is None:
+        raise Unsupported("abstract %s function expected, got %r" % (kind, f))
+    return a
+
+
+def _value_at(eng, t, D, value):
     from . import enumth as EN
     ver = eng.store_of(D)
-    return EN.VALUE(t, ver.dom, ver.val)
+    return EN.VALUE(_fn(eng, value, "value").fid, t, ver.dom, ver.val)
+
+
+def _valid_at(eng, t, valid):
+    from . import enumth as EN
+    return EN.VALID(_fn(eng, valid, "valid").fid, t)
+
+
+@spec
+def valuefn(eng, name):
+    """the value function of the repository with that name (module qubovert.utils._values)"""
+    from . import enumth as EN
+    return EN.AbstractFn("value", EN.fid_of("qubovert.utils._values:" + name))
+
+
+@spec
+def validfn_of(eng, o):
+    """the bound method o.is_solution_valid"""
+    from . import enumth as EN
+    k, fd, kind = eng.db.find_method(o.cls, "is_solution_valid")
+    if fd is None:
+        raise Unsupported("no is_solution_valid")
+    return EN._known_valid(eng, EN.fid_of("%s:%s.is_solution_valid" % (k.module, k.name)), fd)
 
 
 @spec
@@ -807,30 +836,36 @@ def bf_product(eng, spin, n):
 
 
 @spec
-def bf_none_valid(eng, V):
-    from . import enumth as EN
+def bf_none_valid(eng, V, valid):
     V = _asgset(eng, V)
     t = _tq(eng)
-    return SV(z3.ForAll([t], z3.Implies(z3.Select(V, t), z3.Not(EN.VALID(t)))), "bool")
+    return SV(z3.ForAll([t], z3.Implies(z3.Select(V, t), z3.Not(_valid_at(eng, t, valid)))), "bool")
 
 
 @spec
-def bf_is_min(eng, b, V, D):
+def bf_is_min(eng, b, V, D, valid, value):
     """no valid tuple of V has a value below b"""
-    from . import enumth as EN
     V = _asgset(eng, V)
     t = _tq(eng)
-    return SV(z3.ForAll([t], z3.Implies(z3.And(z3.Select(V, t), EN.VALID(t)), _value_at(eng, t, D) >= zreal(b))), "bool")
+    return SV(z3.ForAll([t], z3.Implies(z3.And(z3.Select(V, t), _valid_at(eng, t, valid)),
+                                        _value_at(eng, t, D, value) >= zreal(b))), "bool")
 
 
 @spec
-def bf_attains(eng, x, b, V, D):
+def bf_attains(eng, x, b, V, D, valid, value):
     """x is the assignment of a valid tuple of V with value b"""
-    from . import enumth as EN
     if not (isinstance(x, SV) and x.t == "asg"):
         return False
     V = _asgset(eng, V)
-    return SV(z3.And(z3.Select(V, x.e), EN.VALID(x.e), _value_at(eng, x.e, D) == zreal(b)), "bool")
+    return SV(z3.And(z3.Select(V, x.e), _valid_at(eng, x.e, valid), _value_at(eng, x.e, D, value) == zreal(b)), "bool")
+
+
+@spec
+def bf_attained(eng, b, V, D, valid, value):
+    """some valid tuple of V has value b"""
+    V = _asgset(eng, V)
+    t = _tq(eng)
+    return SV(z3.Exists([t], z3.And(z3.Select(V, t), _valid_at(eng, t, valid), _value_at(eng, t, D, value) == zreal(b))), "bool")
 
 
 @spec
@@ -856,19 +891,51 @@ def bf_nolist(eng, s):
 
 
 @spec
-def bf_list_is(eng, L, b, V, D):
+def bf_list_is(eng, L, b, V, D, valid, value):
     """the python list L holds, exactly once each, the assignments of the valid tuples of V whose value is b"""
-    from . import enumth as EN
     if not (isinstance(L, SV) and L.t == "asglist"):
         return False
     V = _asgset(eng, V)
     t = _tq(eng)
-    want = z3.If(z3.And(z3.Select(V, t), EN.VALID(t), _value_at(eng, t, D) == zreal(b)), z3.IntVal(1), z3.IntVal(0))
+    want = z3.If(z3.And(z3.Select(V, t), _valid_at(eng, t, valid), _value_at(eng, t, D, value) == zreal(b)),
+                 z3.IntVal(1), z3.IntVal(0))
     return SV(z3.ForAll([t], z3.Select(L.e, t) == want), "bool")
 
 
+def _is_minimiser(eng, t, V, D, valid, value):
+    u = _tq(eng, "uq")
+    return z3.And(z3.Select(V, t), _valid_at(eng, t, valid),
+                  z3.ForAll([u], z3.Implies(z3.And(z3.Select(V, u), _valid_at(eng, u, valid)),
+                                            _value_at(eng, u, D, value) >= _value_at(eng, t, D, value))))
+
+
 @spec
-def bf_sols_ok(eng, groups, b, V, D):
+def bf_solution_ok(eng, s, V, D, valid, value):
+    """s is the assignment of a valid tuple of V of minimal value; {} when no tuple of V is valid"""
+    Vv = _asgset(eng, V)
+    if isinstance(s, SV) and s.t == "asg":
+        return SV(_is_minimiser(eng, s.e, Vv, D, valid, value), "bool")
+    ns = bf_nosol(eng, s)
+    if ns is False:
+        return False
+    return SV(z3.And(_b(eng, ns), _b(eng, bf_none_valid(eng, V, valid))), "bool")
+
+
+@spec
+def bf_solutions_ok(eng, L, V, D, valid, value):
+    """the python list L holds exactly the minimisers among the valid tuples of V, once each ([] when none is valid)"""
+    Vv = _asgset(eng, V)
+    if isinstance(L, SV) and L.t == "asglist":
+        t = _tq(eng)
+        want = z3.If(_is_minimiser(eng, t, Vv, D, valid, value), z3.IntVal(1), z3.IntVal(0))
+        return SV(z3.ForAll([t], z3.Select(L.e, t) == want), "bool")
+    if isinstance(L, ListVal) and not L.items:
+        return bf_none_valid(eng, V, valid)
+    return False
+
+
+@spec
+def bf_sols_ok(eng, groups, b, V, D, valid, value):
     """bookkeeping of all_solutions: no value recorded below the current best b, and the list recorded for b holds
     exactly the valid visited tuples of value b, once each; nothing recorded while there is no best"""
     from . import enumth as EN
@@ -881,7 +948,8 @@ def bf_sols_ok(eng, groups, b, V, D):
     bb = zreal(b)
     Vv = _asgset(eng, V)
     t = _tq(eng)
-    want = z3.If(z3.And(z3.Select(Vv, t), EN.VALID(t), _value_at(eng, t, D) == bb), z3.IntVal(1), z3.IntVal(0))
+    want = z3.If(z3.And(z3.Select(Vv, t), _valid_at(eng, t, valid), _value_at(eng, t, D, value) == bb),
+                 z3.IntVal(1), z3.IntVal(0))
     return SV(z3.And(z3.Select(groups.has, bb),
                      z3.ForAll([r], z3.Implies(z3.Select(groups.has, r), r >= bb)),
                      z3.ForAll([t], z3.Select(z3.Select(groups.cnt, bb), t) == want)), "bool")
